@@ -2,3 +2,5 @@ import JsonataModel.Model.Basic
 import JsonataModel.Model.Interp
 import JsonataModel.Model.Proto
 import JsonataModel.Props.C03
+import JsonataModel.Props.C01
+import JsonataModel.Props.C02
